@@ -5,7 +5,7 @@ during the run.
 Correspondence:
 
   slice_indices n a b s                  vs  list(range(n))[a:b:s]  and  range(*slice(a, b, s).indices(n))
-  mask_indices n m                       vs  np.arange(n)[np.array(m, bool)]                  (IndexError on a wrong length)
+  mask_indices n m                       vs  np.arange(n)[np.array(m, bool)]                  (IndexError on a wrong length; [] accepted on any axis)
   guard_ndim n sel                       vs  np.empty(n)[sel].ndim  (the guard of the function class, model.py:1493)
   index2 ng ne A sel                     vs  A[sel] for A = np.arange(ng*ne).reshape(ng, ne)   (selectors without None;
                                              EUnmodelled = two consuming items: not compared)
@@ -332,11 +332,11 @@ class _Tie:
                      f"slice_indices (Z.to_nat {cZ(n)}) {coz(a)} {coz(b)} {coz(s)}")
         for _ in range(30 if self.Q else 300):
             n = self.ri(0, 6)
-            ln = n if rng.random() < 0.7 else self.ri(1, 7)      # not 0: see gen_item
+            ln = n if rng.random() < 0.6 else 0 if rng.random() < 0.25 else self.ri(0, 7)   # 0: accepted on every axis
             m = [bool(rng.random() < 0.5) for _ in range(ln)]
             ec, got, msg = call(lambda: np.arange(n)[np.array(m, dtype=bool)].tolist())
             self.add(f"CMask {cZ(n)} {clist([cbool(b) for b in m])} {cZ(ec)} {czl(got or [])}", "mask_indices",
-                     ERR[ec] if ec else "ok",
+                     ERR[ec] if ec else "ok, empty mask on a non-empty axis" if (not m and n > 0) else "ok",
                      {"correspondence": "Model.AmplitudesGlue.mask_indices vs np.arange(n)[mask]", "n": n, "mask": m,
                       "impl": got if ec == 0 else msg},
                      f"mask_indices (Z.to_nat {cZ(n)}) {clist([cbool(b) for b in m])}")
@@ -367,22 +367,25 @@ class _Tie:
             if not l or rng.random() < 0.5:
                 return np.array(l, dtype=np.int64), ("list", l)
             return list(l), ("list", l)
-        # (numpy accepts a boolean index of size 0 on ANY axis and selects nothing; Model mask_indices answers IndexError:
-        #  the tie never generates an empty mask for a non-empty axis, see the final report of the tie)
-        ln = n if valid else self.pick([n + 1, n - 1 if n > 1 else n + 3, n + 2])
+        # numpy accepts a boolean index of size 0 on ANY axis and selects nothing: Model mask_indices [] = GOk []; so an empty
+        # mask is a VALID item on every axis, and an invalid mask has a length that is neither n nor 0
+        if valid:
+            ln = 0 if rng.random() < 0.2 else n
+        else:
+            ln = self.pick([n + 1, n - 1 if n > 1 else n + 3, n + 2])
         m = [bool(rng.random() < 0.5) for _ in range(ln)]
         if not m or rng.random() < 0.5:
             return np.array(m, dtype=bool), ("mask", m)
         return list(m), ("mask", m)
 
-    def gen_selector(self, ng, ne, family=None):
-        """(python index, model selector, kind); an empty mask only where the axis it addresses is empty (see gen_item)"""
-        while True:
-            py, sel, kind = self.gen_selector0(ng, ne, family)
-            if not any(it == ("mask", []) for it in sel) or (ng == 0 and kind in ("grid", "grid-invalid")):
-                return py, sel, kind
+    def note_empty_mask(self, family, n, sel):
+        """extra count (no comparison of its own): an empty boolean mask in an index of an array whose first axis is NOT empty
+        (numpy accepts it and selects nothing; excluded from the tie before the repair of mask_indices)"""
+        if n > 0 and ("mask", []) in sel:
+            self.chk.count(tie_C08=f"{family}:with an empty mask on a non-empty axis")
 
-    def gen_selector0(self, ng, ne, family=None):
+    def gen_selector(self, ng, ne, family=None):
+        """(python index, model selector, kind)"""
         rng = self.rng
         if family is None:
             u = rng.random()
@@ -450,6 +453,7 @@ class _Tie:
             todo.append((ng, py, sel, kind))
         for n, py, sel, kind in todo:
             ec, nd, msg = call(lambda: int(np.empty(n)[py].ndim))
+            self.note_empty_mask("guard_ndim", n, sel)
             self.add(f"CGuard {cZ(n)} {csel(sel)} {cZ(ec)} {cZ(nd or 0)}", "guard_ndim", f"{kind}:{ERR[ec] if ec else 'ndim ' + str(nd)}",
                      {"correspondence": "Model.AmplitudesGlue.guard_ndim vs np.empty(n)[sel].ndim (model.py:1493)", "n": n,
                       "selector": self.sel_repr(py), "impl": nd if ec == 0 else msg}, f"guard_ndim (Z.to_nat {cZ(n)}) {csel(sel)}")
@@ -472,6 +476,7 @@ class _Tie:
                 ecc = 0
             else:
                 garr, ecc = "A1 []", ec
+            self.note_empty_mask("index2", ng, sel)
             self.add(f"CIndex2 {cZ(ng)} {cZ(ne)} {csel(sel)} {cZ(ecc)} ({garr})", "index2",
                      f"{kind}:{ERR.get(ecc, 'other ndim') if ecc else str(got.ndim) + '-d'}",
                      {"correspondence": "Model.AmplitudesGlue.index2 vs A[sel], A = np.arange(ng*ne).reshape(ng, ne)", "ng": ng, "ne": ne,
@@ -817,6 +822,7 @@ class _Tie:
                 items.append(f"({csel(sel)}, {lit})")
                 ritems.append({"selector": self.sel_repr(py), "impl": shown, "model_outcome_class(pass 1)": OCLASS.get(c, c)})
                 self.chk.count(tie_C08=f"getitem:{tag}:{ERR[ec] if ec else str(np.ndim(r)) + '-d'}")
+                self.note_empty_mask(f"getitem:{o['cls']}:{'ok' if ec == 0 else ERR[ec]}", o["ng"], sel)
                 self.n += 1
             if not items:
                 continue
